@@ -59,12 +59,56 @@ func Excuse(c Case, eng, ref Result, d *Diff, o *Outcome) string {
 			return "tie"
 		}
 	}
+	if d.Rule == "value" && illConditioned(expr) && CompareLoose(eng, ref, 1e-6) == nil {
+		// e.g. tan(stdvar(x)) near a pole: a last-bit difference of the inexactly computed operand is
+		// amplified beyond the comparison tolerance. Real defects are not this small.
+		o.Inconclusive = "ill-conditioned function of an inexactly computed operand: results agree within 1e-6"
+		o.Count("inconclusive_ill_conditioned", 1)
+		return "ill-conditioned"
+	}
 	if d.Rule != "type" && knifeEdge(c, expr) {
 		o.Inconclusive = "rounding at a comparison threshold: operands of a comparison agree within 1e-9"
 		o.Count("inconclusive_knife_edge", 1)
 		return "knife-edge"
 	}
 	return ""
+}
+
+// illConditioned: the query applies a function that can amplify relative error without bound (tan
+// near its poles, exp/sinh/cosh/^ of large arguments, logarithms near 1, inverse functions near the
+// ends of their domain) to an operand whose value is computed inexactly.
+func illConditioned(expr parser.Expr) bool {
+	found := false
+	inexact := func(e parser.Expr) bool {
+		if inexact(e) {
+			return true
+		}
+		sum := false // the order of a floating-point summation follows the sharding
+		parser.Inspect(e, func(n parser.Node, _ []parser.Node) error {
+			if ag, ok := n.(*parser.AggregateExpr); ok && ag.Op == parser.SUM {
+				sum = true
+			}
+			return nil
+		})
+		return sum
+	}
+	parser.Inspect(expr, func(n parser.Node, _ []parser.Node) error {
+		switch x := n.(type) {
+		case *parser.Call:
+			switch x.Func.Name {
+			case "tan", "exp", "sinh", "cosh", "tanh", "ln", "log2", "log10", "asin", "acos", "acosh", "atanh", "sin", "cos":
+				if len(x.Args) == 1 && inexact(x.Args[0]) {
+					found = true
+				}
+			}
+		case *parser.BinaryExpr:
+			if x.Op == parser.POW && (inexact(x.LHS) || inexact(x.RHS)) {
+				found = true
+			}
+		}
+		return nil
+	})
+	return found
 }
 
 // InKnownClass reports whether a generated case (never a committed witness) lies in the input
